@@ -9,6 +9,7 @@ global size_of usize == 8; // assumption: 64-bit target (listed in evidence)
 //@@include spec_arith.rs
 
 pub const SEGMENT_NODE_SIZE: usize = 8;
+pub enum Error { InsufficientSpace { requested: u32, available: u32 }, ReadOnly, OutOfBounds { offset: usize, allocated: usize } }
 
 // ---- lib.rs --------------------------------------------------------------------------------
 
